@@ -96,6 +96,8 @@ def check(prog, rep):
                        f"reported value = {res}.fun where fun is compiled from the whole objective expression" if ok and whole else
                        ("objective_value does not derive from the backend's fun or a re-evaluation" if not ok else "the function handed to minimize() is not compiled from the problem's objective expression"),
                        loc=f"{fi.module.rel}:{sc.lineno}", detail="from-whole-objective")
+            # R07.1b: the reported value as a symbolic term per sense (order of sign-undo and constant matters)
+            _reported_term(prog, rep, fi, sc, ov, res, backend)
             # R07.3 value alignment
             vv = [k.value for k in sc.keywords if k.arg == "values"]
             if vv:
@@ -172,6 +174,10 @@ def check(prog, rep):
                 if isinstance(st, ast.Assign) and isinstance(st.targets[0], ast.Subscript) and src(st.targets[0].slice) == i and f"[{v}.name]" in src(st.value):
                     ok = src(n.iter.args[0]).endswith("._variables")
     rep.pin("solution handles", "R07.4", "Solution._get_vector", ok, "result[i] is the value of the i-th variable of the handle" if ok else "the vector handle is not filled position-by-position from enumerate(vec._variables)", loc=gv.loc, detail="position")
+    for m_, filled in ((gv, "result"), (gm, "result")):
+        for r in [n for n in walk_local(m_.node) if isinstance(n, ast.Return)]:
+            okr = isinstance(r.value, ast.Name) and r.value.id == filled
+            rep.ob("R07.4", f"Solution.{m_.name}", okr, "every return hands out the array filled by name lookup" if okr else f"also returns `{src(r.value)[:60]}`, which is not looked up by variable name position by position (e.g. relies on the order of the values dict)", loc=f"{m_.module.rel}:{r.lineno}", detail=f"return:{'filled' if okr else src(r.value)[:30]}")
     ok = False
     for n in walk_local(gm.node, include_self=False):
         if isinstance(n, ast.Assign) and isinstance(n.targets[0], ast.Subscript) and isinstance(n.targets[0].slice, ast.Tuple):
@@ -211,6 +217,80 @@ def check(prog, rep):
         "sign-flipped, one variable list defining both the backend columns and the name->value dictionary, and the "
         "index maps of Solution handles."
     )
+
+
+def _reported_term(prog, rep, fi, sc, ov, res, backend):
+    """Evaluate the straight-line code that computes objective_value in two worlds (maximise / minimise):
+    minimize(): value must be s*fun;  linprog: s*fun + c0   with s = -1 iff maximise."""
+    from .. import algebra as al
+    from ..terms import Tr, Untranslatable
+
+    FUN, C0 = al.A("fun"), al.A("c0")
+
+    def gather(n):
+        t = src(n)
+        if t == f"{res}.fun":
+            return FUN
+        if isinstance(n, ast.Attribute) and n.attr not in LPDATA_MATRIX_FIELDS and isinstance(n.value, ast.Name) and _is_lpdata(n.value.id, local_assignments(fi.node)):
+            return C0
+        if isinstance(n, ast.Call) and "constant" in (dotted(n.func) or "").lower():
+            return C0
+        return None
+
+    if not isinstance(ov, ast.Name):
+        return
+    target = ov.id
+    for world in ("max", "min"):
+        env = {}
+
+        def sense_test(t):
+            text = src(t)
+            if "sense" not in text:
+                return None
+            is_max = "'max" in text
+            is_min = "'min" in text
+            pos = isinstance(t, ast.Compare) and isinstance(t.ops[0], ast.Eq)
+            if not (is_max or is_min):
+                return None
+            holds = (world == "max") == is_max
+            return holds if pos else not holds
+
+        def run(stmts):
+            for st in stmts:
+                if isinstance(st, ast.If):
+                    r = sense_test(st.test)
+                    if r is None:
+                        # other guards (e.g. `result.fun is not None`): follow the body
+                        run(st.body)
+                    else:
+                        run(st.body if r else st.orelse)
+                elif isinstance(st, (ast.Assign, ast.AnnAssign)) and (st.value is not None):
+                    tg = st.targets[0] if isinstance(st, ast.Assign) else st.target
+                    if isinstance(tg, ast.Name) and tg.id == target:
+                        if isinstance(st.value, ast.Constant) and st.value.value is None:
+                            continue
+                        env[target] = Tr(dict(env), gather=gather).t(st.value)
+                elif isinstance(st, ast.AugAssign) and isinstance(st.target, ast.Name) and st.target.id == target and target in env:
+                    rhs = Tr(dict(env), gather=gather).t(st.value)
+                    cur = env[target]
+                    env[target] = {ast.Add: cur + rhs, ast.Sub: cur - rhs, ast.Mult: cur * rhs}.get(type(st.op), cur)
+                elif isinstance(st, ast.Try):
+                    run(st.body)
+
+        try:
+            run(fi.node.body)
+        except Untranslatable as e:
+            raise AnalysisError(f"{fi.name}: computation of {target} not interpretable: {e}")
+        got = env.get(target)
+        if got is None:
+            raise AnalysisError(f"{fi.name}: no assignment to {target} found")
+        sgn = al.C(-1) if world == "max" else al.C(1)
+        want = sgn * FUN + (C0 if backend == "linprog" else al.C(0))
+        ok = got.eq(want)
+        rep.ob("R07.1", f"{fi.name}:objective_value", ok,
+               f"{'maximise' if world == 'max' else 'minimise'}: reported value = {want.key()}" if ok else
+               f"{'maximise' if world == 'max' else 'minimise'}: reported value is {got.key()} but the user's objective at the returned point is {want.key()} (the backend minimised {'-' if world == 'max' else ''}objective{' without its constant term c0' if backend == 'linprog' else ''})",
+               loc=f"{fi.module.rel}:{sc.lineno}", detail=f"value-term:{world}")
 
 
 def _is_lpdata(name, assigns):
